@@ -73,8 +73,13 @@ def run(tier):
         Rm = np.roll(L, 2, axis=2)
         mask = (rng.rand(rows, cols) < 0.03).astype(np.int16) * rng.choice([1, 2], size=(rows, cols)) if k % 2 == 0 else None
         bands = ["r", "g", "b"] if nb == 3 else None
-        left = build.make_image(L if nb == 3 else L[0], mask=mask, disp=(umin, umax), bands=bands)
-        right = build.make_image(Rm if nb == 3 else Rm[0], mask=mask, bands=bands)
+        # the images may code their masks with their own convention (valid_pixels / no_data_mask attributes)
+        from vp import dataplane as dp
+        conv = dp.CONVENTIONS[(k // 2) % len(dp.CONVENTIONS)] if mask is not None else None
+        mk = dp.code_mask(mask, conv) if mask is not None else None
+        at = {"valid_pixels": conv[0], "no_data_mask": conv[1]} if conv else None
+        left = build.make_image(L if nb == 3 else L[0], mask=mk, disp=(umin, umax), bands=bands, attrs=at)
+        right = build.make_image(Rm if nb == 3 else Rm[0], mask=mk, bands=bands, attrs=at)
         kinds = ["matching_cost"] + (["cost_volume_confidence"] if k % 3 == 0 else []) + ["disparity"] + (["refinement"] if k % 2 else []) + \
                 (["filter"] if k % 4 == 1 else []) + ["multiscale"] + (["filter"] if k % 4 == 2 else []) + (["validation"] if k % 5 == 0 else []) + \
                 (["refinement"] if k % 4 == 3 and k % 2 == 0 else [])
